@@ -5,6 +5,9 @@ package ringbuffer
 // C18 — the ring buffer is a loss-free, duplication-free FIFO across wrap.
 // Engine A: BFS to a fixpoint over canonical states + un-merged depth-bounded DFS cross-check.
 // Oracle: a boring reference queue (two integers over a position-tagged byte stream).
+// Every family is run once per "counter base": the value both 64-bit counters of the shared descriptor have
+// when the history starts (a ring that has been running for a while), so that the counters sit below, cross
+// and sit above 2^32 and 2^63; the reference stream's positions start at the same base.
 
 import (
 	"fmt"
@@ -24,6 +27,16 @@ type c18Op struct {
 
 func (o c18Op) String() string { return fmt.Sprintf("%s(%d)", o.kind, o.n) }
 
+// c18Bases: 0 (fresh ring); 3 below 2^32 (the counters cross 2^32 within the first ops); above 2^32 and above
+// 2^33 with residues 2, 5 and 0, 3 mod 3, 6 (2^32 = 1 mod 3, 4 mod 6, 1 mod 5: arithmetic that drops the upper
+// half gives different remainders for every stride that is not a power of two); 9 below 2^63 (crosses the
+// sign bit). The real code works on uint64 throughout and converts only differences to int, so all of
+// these are in its domain; a base within one capacity of 2^64 is not (position%capacity is discontinuous
+// where the counter itself overflows unless the capacity is a power of two) and is not used.
+var c18Bases = []uint64{0, 1<<32 - 3, 1<<32 + 5, 1<<33 + 1, 1<<63 - 9}
+
+const c18MaxStride = 6
+
 func c18Ops(capacity int) []c18Op {
 	var ops []c18Op
 	for n := 0; n <= capacity+1; n++ {
@@ -32,10 +45,10 @@ func c18Ops(capacity int) []c18Op {
 	for n := -1; n <= capacity+1; n++ {
 		ops = append(ops, c18Op{"R", n})
 	}
-	for k := 1; k <= 4 && k < capacity; k++ {
+	for k := 1; k <= c18MaxStride && k < capacity; k++ {
 		ops = append(ops, c18Op{"M", k})
 	}
-	for k := 1; k <= 4; k++ {
+	for k := 1; k <= c18MaxStride; k++ {
 		ops = append(ops, c18Op{"D", k})
 	}
 	ops = append(ops, c18Op{"A", 0})
@@ -45,6 +58,7 @@ func c18Ops(capacity int) []c18Op {
 type c18Model struct {
 	rb       *RingBuffer
 	capacity int
+	base     uint64 // value of both counters at the start of the history
 	acc      uint64 // bytes accepted so far (reference write position)
 	rd       uint64 // reference read position
 	wrapped  bool
@@ -52,13 +66,14 @@ type c18Model struct {
 	discards int
 }
 
-func c18New(capacity int) *c18Model {
+func c18New(capacity int, base uint64) *c18Model {
 	rb := &RingBuffer{}
-	rb.desc = &bufferDescription{magic: 0xb0ffde5c, version: 0x01020003, bufferSize: uint64(capacity), packetSize: 8192}
+	rb.desc = &bufferDescription{magic: 0xb0ffde5c, version: 0x01020003, bufferSize: uint64(capacity), packetSize: 8192,
+		writePointer: base, readPointer: base}
 	rb.size = uint64(capacity)
 	rb.raw = make([]byte, capacity)
 	rb.writeable = true
-	return &c18Model{rb: rb, capacity: capacity}
+	return &c18Model{rb: rb, capacity: capacity, base: base, acc: base, rd: base}
 }
 
 // apply executes one op on the real buffer and checks it against the reference queue.
@@ -131,8 +146,8 @@ func (m *c18Model) apply(x *vexp.X, op c18Op) (viol, class string) {
 		m.discards++
 		a := m.rb.BytesReadable()
 		x.Logf("%v -> readable afterwards %d   [ref rd=%d acc=%d]", op, a, m.rd, m.acc)
-		if a < 0 || uint64(a) > m.acc {
-			return fmt.Sprintf("%v: %d bytes readable afterwards but only %d ever accepted", op, a, m.acc), "discard-position-out-of-range"
+		if a < 0 || uint64(a) > m.acc-m.base {
+			return fmt.Sprintf("%v: %d bytes readable afterwards but only %d ever accepted", op, a, m.acc-m.base), "discard-position-out-of-range"
 		}
 		np := m.acc - uint64(a)
 		if np < m.rd {
@@ -150,7 +165,7 @@ func (m *c18Model) apply(x *vexp.X, op c18Op) (viol, class string) {
 }
 
 func (m *c18Model) canon(M uint64) string {
-	return fmt.Sprintf("%d,%d,%d", m.rd%M, m.acc%M, m.acc-m.rd)
+	return fmt.Sprintf("b%d:%d,%d,%d", m.base, m.rd%M, m.acc%M, m.acc-m.rd)
 }
 
 func c18lcm(a, b uint64) uint64 {
@@ -162,6 +177,19 @@ func c18lcm(a, b uint64) uint64 {
 	return a / g * b
 }
 
+func c18BaseName(b uint64) string {
+	for _, e := range []uint{63, 33, 32} {
+		p := uint64(1) << e
+		switch {
+		case b >= p:
+			return fmt.Sprintf("2^%d+%d", e, b-p)
+		case p-b < 1<<16:
+			return fmt.Sprintf("2^%d-%d", e, p-b)
+		}
+	}
+	return fmt.Sprint(b)
+}
+
 func TestVerifC18(t *testing.T) {
 	r := vexp.NewRunner("C18")
 	defer r.Finish()
@@ -170,49 +198,60 @@ func TestVerifC18(t *testing.T) {
 	if r.Thorough() {
 		depth = 5
 	}
-	r.SetBound(fmt.Sprintf("BFS to closure for capacities %v over Write(0..cap+1), Read(-1..cap+1), ReadMultipleOf(1..4), DiscardStride(1..4), ReadAll; plus un-merged DFS of all op sequences to depth %d", caps, depth))
+	var bnames []string
+	for _, b := range c18Bases {
+		bnames = append(bnames, c18BaseName(b))
+	}
+	r.SetBound(fmt.Sprintf("for each start value of both 64-bit counters in %v: BFS to closure for capacities %v over Write(0..cap+1), Read(-1..cap+1), "+
+		"ReadMultipleOf(1..min(%d,cap-1)), DiscardStride(1..%d), ReadAll; plus un-merged DFS of all op sequences to depth %d",
+		bnames, caps, c18MaxStride, c18MaxStride, depth))
 
-	for _, capacity := range caps {
-		capacity := capacity
-		ops := c18Ops(capacity)
-		M := c18lcm(uint64(capacity), 12)
-		r.BFS(fmt.Sprintf("bfs/cap%d", capacity), vexp.BFSSpec{
-			NumOps: len(ops),
-			Run: func(x *vexp.X, hist []int) (string, vexp.Result) {
-				m := c18New(capacity)
-				for _, oi := range hist {
-					if v, cls := m.apply(x, ops[oi]); v != "" {
-						return "", vexp.Result{Violation: v, Class: cls}
+	for _, base := range c18Bases {
+		for _, capacity := range caps {
+			capacity, base := capacity, base
+			ops := c18Ops(capacity)
+			// everything the code computes from the counters is position%capacity, position%stride and the difference
+			M := c18lcm(uint64(capacity), 60)
+			r.BFS(fmt.Sprintf("bfs/base%s/cap%d", c18BaseName(base), capacity), vexp.BFSSpec{
+				NumOps: len(ops),
+				Run: func(x *vexp.X, hist []int) (string, vexp.Result) {
+					m := c18New(capacity, base)
+					for _, oi := range hist {
+						if v, cls := m.apply(x, ops[oi]); v != "" {
+							return "", vexp.Result{Violation: v, Class: cls}
+						}
 					}
-				}
-				return m.canon(M), vexp.Result{Nontrivial: m.wrapped, Outcome: m.canon(M)}
-			},
-		})
+					return m.canon(M), vexp.Result{Nontrivial: m.wrapped, Outcome: m.canon(M)}
+				},
+			})
+		}
 	}
 	// un-merged cross-check of the canonicalisation: every op sequence to the depth bound
-	for _, capacity := range caps {
-		capacity := capacity
-		ops := c18Ops(capacity)
-		for first := range ops {
-			first := first
-			r.DFS(fmt.Sprintf("dfs/cap%d/first=%v", capacity, ops[first]), -1, func(x *vexp.X) vexp.Result {
-				m := c18New(capacity)
-				// start from a wrapped, non-initial state for half of the cases: pre-fill and drain
-				if x.Choose(2) == 1 {
-					m.apply(x, c18Op{"W", capacity - 2})
-					m.apply(x, c18Op{"R", capacity - 3})
-				}
-				if v, cls := m.apply(x, ops[first]); v != "" {
-					return vexp.Result{Violation: v, Class: cls}
-				}
-				for d := 1; d < depth; d++ {
-					oi := x.Choose(len(ops))
-					if v, cls := m.apply(x, ops[oi]); v != "" {
+	for _, base := range c18Bases {
+		for _, capacity := range caps {
+			capacity, base := capacity, base
+			ops := c18Ops(capacity)
+			for first := range ops {
+				first := first
+				r.DFS(fmt.Sprintf("dfs/base%s/cap%d/first=%v", c18BaseName(base), capacity, ops[first]), -1, func(x *vexp.X) vexp.Result {
+					m := c18New(capacity, base)
+					// start from a wrapped, non-initial state for half of the cases: pre-fill and drain
+					if x.Choose(2) == 1 {
+						m.apply(x, c18Op{"W", capacity - 2})
+						m.apply(x, c18Op{"R", capacity - 3})
+					}
+					if v, cls := m.apply(x, ops[first]); v != "" {
 						return vexp.Result{Violation: v, Class: cls}
 					}
-				}
-				return vexp.Result{Nontrivial: m.wrapped && m.full, Outcome: fmt.Sprintf("%d/%d/%d", m.rd, m.acc, m.discards)}
-			})
+					for d := 1; d < depth; d++ {
+						oi := x.Choose(len(ops))
+						if v, cls := m.apply(x, ops[oi]); v != "" {
+							return vexp.Result{Violation: v, Class: cls}
+						}
+					}
+					return vexp.Result{Nontrivial: m.wrapped && m.full, Outcome: fmt.Sprintf("%d/%d/%d", m.rd-base, m.acc-base, m.discards)}
+				})
+			}
 		}
 	}
 }
